@@ -71,17 +71,18 @@ class BasicExpr(Expr):
             args = self.variables
             if self.is_bilinear:
                 args = args[0]+args[1]
-            fields = tuple(atoms.difference(args))
+            fields = atoms.difference(args)
         else:
-            fields = tuple(atoms)
-        return fields
+            fields = atoms
+        # a set has no reproducible order (it depends on the string-hash seed): sort by name
+        return tuple(sorted(fields, key=str))
 
     # TODO use .atoms
     @property
     def constants(self):
         ls = self.expr.atoms(Constant)
-        # no redanduncy
-        return tuple(ls)
+        # no redanduncy; sorted by name (a set has no reproducible order)
+        return tuple(sorted(ls, key=str))
 
 #==============================================================================
 # TODO check unicity of domain in __new__
@@ -103,17 +104,18 @@ class BasicForm(Expr):
             args = self.variables
             if self.is_bilinear:
                 args = args[0]+args[1]
-            fields = tuple(i for i in atoms if i not in args)
+            fields = [i for i in atoms if i not in args]
         else:
-            fields = tuple(atoms)
-        return fields
+            fields = atoms
+        # a set has no reproducible order (it depends on the string-hash seed): sort by name
+        return tuple(sorted(fields, key=str))
 
     # TODO use .atoms
     @property
     def constants(self):
         ls = self.expr.atoms(Constant)
-        # no redanduncy
-        return tuple(ls)
+        # no redanduncy; sorted by name (a set has no reproducible order)
+        return tuple(sorted(ls, key=str))
 
     @property
     def domain(self):
